@@ -17,6 +17,10 @@ CHECKS = {
    text="Stateless exhaustive exploration of the real engine: every Z_3 transformer program up to 4 nodes (5 in the thorough tier) over 7 atoms, 14 unary, 6 binary and 1 ternary constructor (closures, ALT, OR, captures, assertions, binders, let, blocks, format strings with one and two splices, if) plus every constructor chain of depth 3 (4), each run on every single input and behind every small stream of inputs. Two oracles on every execution: the union law evaluated on the implementation alone (results of `G T` = multiset union of T on each element of G), and agreement with a reference interpreter written from doc/syntax.rst, ordered wherever the documentation fixes the order. Per-input state going stale is a property of (program shape x input history), which this enumeration covers completely up to the bound.",
    note="Reference interpreter lib/zwmodel.py is trusted to implement the documentation; orders left open by the documentation are compared as multisets; programs above the size bound (outside the chain family) are not explored; 5-node programs run on the non-sanitized engine build.",
    tech="bounded exhaustive enumeration of programs x inputs on the implementation; metamorphic union law + reference-model comparison"),
+ "C10": dict(cat="model_checking", ref="DESIGN.md §2 C10",
+   text="Every digraph on 3 nodes with out-edge lists of length <= 2 and on 4 nodes with lists of length <= 1 (thorough: 3 nodes/length 3, 4 nodes/length 2; order and duplicates kept, so self-loops, cycles, diamonds and multi-yield bodies all occur) is turned into a closure body; every start node, eleven closure forms and nestings (E*, E+, (E*)*, (E+)*, (E*)+, ((E*)*)*, E**, E+*, ...), streams of inputs with repeats and two-slot stacks are executed on the engine, which is cut off after |reachable|+1 results. Oracle: Python graph reachability, each reachable stack exactly once per input, plus the laws E? = (E,) and E+ = distinct(E E*) on the implementation alone. Closure evaluation is a worklist algorithm over a seen-set, whose behaviours are determined by the graph shape; enumerating all small graphs covers every shape of revisit.",
+   note="Termination is decided within the enumerated graphs only (bounded: one result too many or a watchdog expiry is a violation); large families run on the non-sanitized engine build.",
+   tech="bounded exhaustive enumeration of graphs x start states x closure forms on the implementation vs reachability reference"),
 }
 NOT_YET = "check under construction in this session; not claimed until it has run to completion on the unchanged tree"
 
